@@ -118,16 +118,59 @@ def build(rng, stratum):
     return prog, edges
 
 
+F_LOCKED = "C03-cell-read-and-its-data-source-both-locked-to-red"
+
+
+def data_meets_read(prog):
+    """Scope of F_LOCKED: some expression has, as the two operands of one operation, the read of a cell and a bare
+    signal of the cell's own type that is also (part of) what that cell's write() stores."""
+    types = {s[1]: s[2] for s in prog if s[0] == "input"}
+    mems = {s[1]: s[2] for s in prog if s[0] == "mem"}
+    data_names = {}
+    for s in prog:
+        if s[0] == "write":
+            names = set()
+            lang.walk_expr(s[2], lambda e, _n=names: _n.add(e[1]) if e[0] == "v" else None)
+            data_names[s[1]] = names
+    hit = []
+
+    def visit(e):
+        if e[0] in ("b", "c") and len(e) == 4:
+            for x, y in ((e[2], e[3]), (e[3], e[2])):
+                if x[0] == "r" and y[0] == "v" and y[1] in data_names.get(x[1], ()) and types.get(y[1]) == mems.get(x[1]):
+                    hit.append(e)
+
+    for s in prog:
+        if s[0] == "sig":
+            lang.walk_expr(s[2], visit)
+    return bool(hit)
+
+
+def build_data_meets_read(rng):
+    """The cell's data source and the cell's own read meet in one consumer on the cell's signal type
+    (`Signal d = v - m.read()`, the usual "has the value changed" idiom)."""
+    types = gen.Types(rng)
+    t_mem = types.fresh()
+    prog = [["input", "d0", t_mem, gen.rand_value(rng, True)], ["input", "e0", types.fresh(), rng.randint(0, 1)]]
+    edges = {"d0": [0, 1, -1, 5, -7, 100], "e0": [0, 1, 1, 0, 2]}
+    prog.append(["mem", "m0", t_mem])
+    prog.append(["write", "m0", ["v", "d0"], ["c", ">", ["v", "e0"], ["n", 0]]])
+    e_ = ["b", rng.choice(["-", "+"]), ["v", "d0"], ["r", "m0"]] if rng.random() < 0.5 else ["b", "-", ["r", "m0"], ["v", "d0"]]
+    prog.append(["sig", "r0", ["p", e_, types.fresh()] if rng.random() < 0.5 else e_])
+    prog.append(["sig", "r1", ["p", ["r", "m0"], types.fresh()]])
+    return prog, edges
+
+
 def gen_cases(tier, seed):
     n = 160 if tier == "quick" else 1500
     nhist = 3 if tier == "quick" else 8
     rng = random.Random(3000017 * seed + 5)
-    strata = ["basic"] * 5 + ["shared_input"] * 2 + ["enable_shared"] * 1 + ["multi_cell"] * 2 + ["multi_cell_same_enable"] * 2
+    strata = ["basic"] * 5 + ["shared_input"] * 2 + ["enable_shared"] * 1 + ["multi_cell"] * 2 + ["multi_cell_same_enable"] * 2 + ["data_meets_read"] * 1
     cases = []
     for i in range(n):
         st = rng.choice(strata)
         sub = random.Random(rng.randrange(1 << 60))
-        prog, edges = build(sub, st)
+        prog, edges = build_data_meets_read(sub) if st == "data_meets_read" else build(sub, st)
         c = _mk(prog, st, sub, edges=edges, nhist=nhist, nsteps=sub.randint(8, 40 if tier == "thorough" else 24))
         c["id"] = i
         cases.append(c)
@@ -302,7 +345,11 @@ def run_case(case):
             witness = {"source": src, "history": steps, "mismatches": mism, "stage": stage, "detail": detail}
             res = dict(base, verdict="violated", nontrivial=True, witness=witness, evaluations=total_steps,
                        why="%s: %s" % (stage, str(mism[0])[:300]))
-            if stage == sem.K1:
+            if (b.cap or {}).get("coloring_ok") is False and data_meets_read(prog):
+                # the compiler's own colour planner reports the conflict it could not resolve
+                res["finding"] = F_LOCKED
+                res["why"] = "%s (%s): %s" % (F_LOCKED, stage, str(mism[0])[:260])
+            elif stage == sem.K1:
                 res["finding"] = sem.K1
             return res
     if compared == 0:
